@@ -2,26 +2,19 @@
 
     Model level, for all polygons inside the grid, valid or not.
     - [C05_orientation] and [C05_keep_policy*] need no premise at all.
-    - "does not repeat its first vertex at the end, no two equal consecutive vertices, visits no vertex twice":
-      * [C05_rings_well_formed_partial] (NO premise beyond the grid side conditions): every returned ring is
-        repeat-free — and then, with two or more vertices, last <> first and no equal neighbours — OR it is a
-        two-vertex line [p; p].  The routing premises ([routing_ok]: for every edge of every normalised input
-        ring the centre list returned by snapClosestPoints starts at the centre of the pixel of the edge's start,
-        ends at the centre of the pixel of its end and has no two equal consecutive entries) are discharged from
-        C02 ([C05_routing_premise_discharged]).
-      * The exception is REAL: [C05_rings_well_formed_refuted] — an in-grid ring of 75 vertices over three pixel
-        centres, all hypotheses true, is returned with keep-points-and-lines as the line [(17,17); (17,17)]
-        (replayed on the Go code: SnapPolygon returns [[8.5 8.5] [8.5 8.5]]).  Cause: the premise
-        [kmp_short_nodup] ("a kmpDeduplicate output of fewer than three vertices is repeat-free") that the
-        earlier form of this file assumed is FALSE, [C05_kmp_short_nodup_refuted] (Snap/ProofsKmpShort.v: the
-        default branch of the spike removal records a range that ends beyond the index where scanning resumes,
-        as in finding F13, and the next detection keeps vertices inside that range).
-      * [C05_rings_well_formed] and [C05_rings_well_formed_routing_discharged] are the CONDITIONAL forms
-        ("under kmp_short_nodup every ring is repeat-free"); their premise, quantified over all rings, is
-        refuted, so as stated they say nothing — they are kept for the record of how the clause decomposes
-        (routing + hit accounting + stack invariant + short kmp outputs), the unconditional content is the
-        _partial theorem.
-      The other kmp fact used, [kmp_subseq], is discharged (ProofsKmpSubseq / ProofsLevelJoin).
+    - [C05_rings_well_formed] ("does not repeat its first vertex at the end, no two equal consecutive
+      vertices, visits no vertex twice") is proved from the routing premises [routing_ok]: for every edge of
+      every (normalised) input ring the centre list returned by snapClosestPoints starts at the centre of the
+      pixel of the edge's start and ends at the centre of the pixel of its end ([segments_endpoints]) and has
+      no two equal consecutive entries ([segments_nodup_adjacent]); they are discharged from C02 in
+      [C05_rings_well_formed_routing_discharged], which has NO premise beyond the grid side conditions.
+      Nothing is assumed about kmpDeduplicate: the only fact used, [kmp_subseq], is proved (ProofsKmpSubseq /
+      ProofsLevelJoin); a spike-removal output of fewer than three vertices that reaches asPointOrLine is
+      repeat-free BY CONSTRUCTION since the repair of finding F14 (cleanupNewRing drops the closing vertex
+      again after kmpDeduplicate, [trimClosing], ProofsLevel.trimClosing_short_NoDup).  kmpDeduplicate itself
+      CAN return the line [p; p] — [C05_kmp_short_nodup_refuted], a 75-vertex chain over three centres — which
+      is why the earlier form of this theorem carried a (false) premise and why the unrepaired code returned
+      the polygon [[(8.5 8.5) (8.5 8.5)]]; [C05_regression_F14] replays that witness on the repaired model.
       From them: [route_no_adj_lin] (the routed ring has no equal neighbours), [hit_accounting]
       (flagged iff recorded twice), [route_counts] (the routed ring is a rotation of the recorded centres),
       [split_repeat_free] (the stack invariant), and the lifting through dedupe / match / reversal.
@@ -35,7 +28,6 @@ Open Scope Z_scope.
 
 (** every returned ring: repeat-free, and (with two or more vertices) last <> first, no equal neighbours *)
 Theorem C05_rings_well_formed : forall g P levels cfg r hs,
-  (forall r r', no_adj_dup r -> kmpDeduplicate r = Ok r' -> (length r' < 3)%nat -> NoDup r') ->
   insertPolygon g P = Ok hs ->
   (forall L idx r0, In L levels -> nth_error P idx = Some r0 ->
      routing_ok g (hotLevels g hs) L (ensureCorrectWindingOrder r0 (negb (Nat.eqb idx 0)))) ->
@@ -164,9 +156,9 @@ Example C05_example_figure_eight :
         (2%nat, [[[(8,8);(24,24);(8,56)]]; [[(24,24);(56,8);(56,56)]]])].
 Proof. vm_compute. split; reflexivity. Qed.
 
-(** [kmp_short_nodup] on a bounded domain (it is FALSE in general, [C05_kmp_short_nodup_refuted]; the shortest
-    counterexample known has 75 vertices): all chains over three centres of length 3..7 without equal cyclic
-    neighbours *)
+(** kmpDeduplicate's own short outputs on a bounded domain (repeat-free there; NOT in general,
+    [C05_kmp_short_nodup_refuted]: the shortest counterexample known has 75 vertices): all chains over three
+    centres of length 3..7 without equal cyclic neighbours *)
 Fixpoint exChains (n : nat) : list (list pt) :=
   match n with O => [[]] | S n' => flat_map (fun l => map (fun x => x :: l) [(0,0); (1,0); (2,0)]) (exChains n') end.
 Definition exCycDup (l : list pt) : bool := existsb (fun e => pt_eqb (fst e) (snd e)) (dedges l).
@@ -192,7 +184,6 @@ Proof. exact routing_ok_from_C02. Qed.
 Print Assumptions C05_routing_premise_discharged.
 
 Theorem C05_rings_well_formed_routing_discharged : forall g P levels cfg r,
-  (forall r r', no_adj_dup r -> kmpDeduplicate r = Ok r' -> (length r' < 3)%nat -> NoDup r') ->
   0 < gres g -> RootCovers g -> (forall L, In L levels -> (L <= gdeep g)%nat) ->
   snapPolygon g P levels cfg = Ok r ->
   forall L ps poly x, In (L, ps) r -> In poly ps -> In x poly ->
@@ -200,31 +191,21 @@ Theorem C05_rings_well_formed_routing_discharged : forall g P levels cfg r,
 Proof. exact snap_rings_well_formed_closed. Qed.
 Print Assumptions C05_rings_well_formed_routing_discharged.
 
-(** ** the kmp premise of the two conditional theorems is false ... *)
+(** ** finding F14 (repaired): kmpDeduplicate itself can return the two-vertex line [p; p] ... *)
 Theorem C05_kmp_short_nodup_refuted : exists r r',
   no_adj_dup r /\ (3 <= length r)%nat /\ kmpDeduplicate r = Ok r' /\ (length r' < 3)%nat /\ ~ NoDup r'.
 Proof. exact kmp_short_nodup_refuted. Qed.
 Print Assumptions C05_kmp_short_nodup_refuted.
 
-(** ... and so is their conclusion without it: every other hypothesis holds, a returned ring repeats a vertex *)
-Theorem C05_rings_well_formed_refuted : exists g P levels cfg r hs,
-  0 < gres g /\ RootCovers g /\ (forall L, In L levels -> (L <= gdeep g)%nat) /\
-  insertPolygon g P = Ok hs /\
-  (forall L idx r0, In L levels -> nth_error P idx = Some r0 ->
-     routing_ok g (hotLevels g hs) L (ensureCorrectWindingOrder r0 (negb (Nat.eqb idx 0)))) /\
-  snapPolygon g P levels cfg = Ok r /\
-  exists L ps poly x, In (L, ps) r /\ In poly ps /\ In x poly /\ ~ NoDup x.
-Proof. exact snap_repeat_free_refuted. Qed.
-Print Assumptions C05_rings_well_formed_refuted.
-
-(** what holds unconditionally: repeat-free (hence last <> first, no equal neighbours), or a line [p; p] *)
-Theorem C05_rings_well_formed_partial : forall g P levels cfg r,
-  0 < gres g -> RootCovers g -> (forall L, In L levels -> (L <= gdeep g)%nat) ->
-  snapPolygon g P levels cfg = Ok r ->
-  forall L ps poly x, In (L, ps) r -> In poly ps -> In x poly ->
-    (NoDup x /\ ((2 <= length x)%nat -> hd dp x <> last x dp /\ no_adj_dup x)) \/ exists p, x = [p; p].
-Proof. exact snap_rings_well_formed_partial. Qed.
-Print Assumptions C05_rings_well_formed_partial.
+(** ... the ring of 75 vertices over three pixel centres (16 x 16 pixels of size 2) that was returned as the
+    line [(17,17); (17,17)] now collapses to the point (17,17): returned with keep-points-and-lines, dropped
+    without; the chain that loses every vertex yields nothing *)
+Example C05_regression_F14 :
+  snapPolygon g16 [ring75] [4%nat] (mkConfig true false false) = Ok [(4%nat, [[[(17, 17)]]])] /\
+  snapPolygon g16 [ring75] [4%nat] (mkConfig false false false) = Ok [] /\
+  cleanupNewRing (ProofsKmpEnum.chain w75) true (fun _ => true) = Ok (mkSets [] [] [[(1, 1)]]) /\
+  cleanupNewRing (ProofsKmpEnum.chain w80) true (fun _ => true) = Ok (mkSets [] [] []).
+Proof. exact F14_regression. Qed.
 
 (** non-vacuity: the example grid and levels satisfy the new hypotheses *)
 Example C05_discharged_hypotheses_hold :
